@@ -30,7 +30,7 @@ CHECKS = {
     "C03": dict(
         engine="S", category="model_checking", design="3/C03",
         technique="bounded exhaustive exploration of clause sets x call histories on the real runtime; verdict line multiset compared with a reference model",
-        text="Clause sets of <= 2 (quick) / <= 3 (thorough) patterns in every quantifier form (open, some_call, exact, at-least, exact-then-open/exact/at-least, ordered counts), all histories up to depth 4 / 6; verification by drop after every history and by verify() and Termination::report() once per distinct final state. The multiset of failure lines (pattern name, kind, bound, actual) must equal the model's; silence iff no expectation is unmet. Histories with calls beyond the end of an exactly quantified chain are judged too (their response is unspecified, their count is not); forms include exactly-0, some_call + at_least, answers that park a clone of the mock in the instance; report() is also taken after no_verify_in_drop(). Both tiers also run on the no_std+spin-lock build. Ordered clauses appear with exact counts 0..2, with the implicit once and as chains ending in an unquantified tail. Expectations on methods with a default body / real function / both, and on a trait with the flattened mock api (lines name the method).",
+        text="Clause sets of <= 2 (quick) / <= 3 (thorough) patterns in every quantifier form (open, some_call, exact, at-least, exact-then-open/exact/at-least, ordered counts), all histories up to depth 4 / 6; verification by drop after every history and by verify() and Termination::report() once per distinct final state. The multiset of failure lines (pattern name, kind, bound, actual) must equal the model's; silence iff no expectation is unmet. Histories with calls beyond the end of an exactly quantified chain are judged too (their response is unspecified, their count is not); forms include exactly-0, some_call + at_least, answers that park a clone of the mock in the instance; report() is also taken after no_verify_in_drop(). Both tiers also run on the no_std+spin-lock build. Ordered clauses appear with exact counts 0..2, with the implicit once and as chains ending in an unquantified tail. Expectations on methods with a default body / real function / both, and on a trait with the flattened mock api (lines name the method). Two and three ordered patterns of one method with histories of every length (several unmet at once); twelve exactly quantified patterns violated at once.",
         note=S_NOTE + " Line order across methods is unspecified and not compared."),
     "C04": dict(
         engine="S", category="model_checking", design="3/C04",
@@ -60,7 +60,7 @@ CHECKS = {
     "C12": dict(
         engine="S+T+G", category="model_checking", design="3/C12",
         technique="bounded exhaustive enumeration of return shapes x configuration paths x request routings with instrumented tokens on the real runtime; stateless model checking of racing requests under a controlled scheduler; exhaustive sweep of builder call chains against rustc",
-        text="Instrumented tokens count constructions, clones and drops. Every shape (plain, Option, Result both arms, Result<&T,Tok>, (&T,Tok,Tok), Option/Vec/Poll of Result<&str,Tok>, and Clone twins) x every single-use path (some_call/next_call returns, .once(), .once().then()) and multi-use path (each_call, n_times(1..3), at_least_times, single-use head + multi-use tail) x every routing of 0..3 (quick) / 0..4 (thorough) requests over original and clone: first request gets exactly the configured structure, every later request of a single-use value panics, one clone per multi-use request, nothing dropped before delivery / teardown, everything dropped exactly once. Partial mocks with a real function: an exhausted single-use value refuses, the real function is not called. Race: 2-4 threads requesting one single-use value (plain, tuple with two owned leaves, Vec/Option/Poll/Result composites), all schedules within the preemption bound: exactly one winner, losers panic, one drop. Both tiers also run on the no_std+spin-lock build. A single-use ordered value listed after exactly quantified any-order clauses is delivered to its one request.",
+        text="Instrumented tokens count constructions, clones and drops. Every shape (plain, Option, Result both arms, Result<&T,Tok>, (&T,Tok,Tok), Option/Vec/Poll of Result<&str,Tok>, and Clone twins) x every single-use path (some_call/next_call returns, .once(), .once().then()) and multi-use path (each_call, n_times(1..3), at_least_times, single-use head + multi-use tail) x every routing of 0..3 (quick) / 0..4 (thorough) requests over original and clone: first request gets exactly the configured structure, every later request of a single-use value panics, one clone per multi-use request, nothing dropped before delivery / teardown, everything dropped exactly once. Partial mocks with a real function: an exhausted single-use value refuses, the real function is not called. Race: 2-4 threads requesting one single-use value (plain, tuple with two owned leaves, Vec/Option/Poll/Result composites), all schedules within the preemption bound: exactly one winner, losers panic, one drop. Both tiers also run on the no_std+spin-lock build. A single-use ordered value listed after exactly quantified any-order clauses is delivered to its one request. A repeatable value with a count of zero stays stored until teardown; the type-state sweep covers a third output class (not Clone, configured through Into from a Clone value).",
         note=S_NOTE + " " + T_NOTE + " Duplication of a non-Clone value itself is excluded by the type system (forbid(unsafe_code))."),
     "C13": dict(
         engine="S+T", category="model_checking", design="3/C13",
@@ -70,7 +70,7 @@ CHECKS = {
     "C18": dict(
         engine="S", category="model_checking", design="3/C18",
         technique="exhaustive enumeration of metamorphic relation instances (clause shuffles, call routings, interleaved twin mocks, generic instantiations) with a differential oracle on the real runtime",
-        text="(a) two base lists of 6 clauses, every sublist of >= 2 clauses, every admissible shuffle x every history of depth 3 (quick) / 4 (thorough); (b) every history x every assignment of its calls to original / clone 1 / clone 2; (c) every pair of depth-2 histories x every interleaving on two mocks built from the same clauses; (d) every pattern list over two instantiations of a generic method x every call sequence; (e) same-named generic methods of two traits in one module: every subset configured in every clause order x every call pair. Compared with the baseline run: every call's outcome (value or panic text), all counters, ordered index, recorded errors, verdict line multiset. (b) is repeated with no_verify_in_drop() right after construction and an explicit verify() at the end; (e) includes two instantiations of one generic method in different ordering modes. (b) is also run on a partial mock over calls that fall through to real functions and default bodies.",
+        text="(a) two base lists of 6 clauses, every sublist of >= 2 clauses, every admissible shuffle x every history of depth 3 (quick) / 4 (thorough); (b) every history x every assignment of its calls to original / clone 1 / clone 2; (c) every pair of depth-2 histories x every interleaving on two mocks built from the same clauses; (d) every pattern list over two instantiations of a generic method x every call sequence; (e) same-named generic methods of two traits in one module: every subset configured in every clause order x every call pair. Compared with the baseline run: every call's outcome (value or panic text), all counters, ordered index, recorded errors, verdict line multiset. (b) is repeated with no_verify_in_drop() right after construction and an explicit verify() at the end; (e) includes two instantiations of one generic method in different ordering modes. (b) is also run on a partial mock over calls that fall through to real functions and default bodies. Routed runs are repeated with the clones ending on another thread that is not unwinding.",
         note="Pure differential oracle: the baseline run of the real mock is the expected value; no reference model involved."),
     "C05": dict(
         engine="G", category="exploration", design="3/C05",
